@@ -9,6 +9,7 @@
 (*   Pred    {i, label, truth, fin, sc[][3]} prediction[i] and the STORED probability row as order codes   *)
 (*   Disc    {err}                           stored score vs mu' C x - mu' C mu / 2 + ln(prior), max relative *)
 (*   EndPred {n, rows}                       n test objects were submitted, prediction has `rows` rows       *)
+(*   Reuse   {err, same, rows, n}            second LDAPrediction call into REUSED (sized, non-zero) outputs vs a fresh call *)
 (*   Pair    {kind, err, same, kf}           affine / perm: score-difference deviation, predictions equal; *)
 (*                                           kf = Frobenius condition number of the covariance LDA() inverts *)
 (*   Auc     {k, err}   AucEnd{count}        |AUC_k - 1| from LDAMulticlassStatistics on perfect predictions *)
@@ -89,6 +90,10 @@ TEndPred == /\ l <= Len(Tr) /\ Ev.e = "EndPred" /\ Step /\ Same
             /\ Ev.rows = Ev.n
             /\ (st.sep = 1 => st.errs = 0)
 
+\* what a call returns does not depend on what its output matrices held before
+TReuse == /\ l <= Len(Tr) /\ Ev.e = "Reuse" /\ Step /\ Same
+          /\ Ev.rows = Ev.n /\ Ev.same = 1 /\ Ev.err <= TolExact
+
 \* invariance under affine re-coding of train and test, and under reordering of the training objects
 TPair == /\ l <= Len(Tr) /\ Ev.e = "Pair" /\ Step /\ Same
          /\ Ev.kind \in {"affine", "perm"}
@@ -104,7 +109,7 @@ TAucEnd == /\ l <= Len(Tr) /\ Ev.e = "AucEnd" /\ Step /\ Same
            /\ st.nauc >= 1 /\ st.nauc = Ev.count
            /\ (PropOnly \/ st.nauc = (IF NClass(lab) = 2 THEN 1 ELSE NClass(lab)))   \* two classes: one curve
 
-TNext == TReset \/ TCase \/ TLabels \/ TPrior \/ TPriorSum \/ TMu \/ TMuL \/ TPred \/ TDisc \/ TEndPred
+TNext == TReset \/ TCase \/ TLabels \/ TPrior \/ TPriorSum \/ TMu \/ TMuL \/ TPred \/ TDisc \/ TEndPred \/ TReuse
          \/ TPair \/ TAuc \/ TAucEnd
 TSpec == TInit /\ [][TNext]_tvars
 TraceAccepted == Accepted
